@@ -50,13 +50,14 @@ type relayCase struct {
 	Raw       bool    `json:"raw_conn"`
 	V6Client  bool    `json:"client_over_ipv6"`
 	TailAfter int     `json:"bytes_after_peer_fin"`
+	ShortName string  `json:"short_host_name,omitempty"`
 	SlowRead  int     `json:"target_reads_late_ms"` // the target starts reading this long after accepting
 	SlowMs    int     `json:"slow_ms"`              // both sides pause this long mid-stream (longer than the handshake timeout)
 }
 
 func (rc relayCase) class() string {
 	return fmt.Sprintf("%s|addr=%d|up=%s|down=%s|chunks=%s|coalesce=%v|empty=%v|cut=%s|%s|tfirst=%v|raw=%v", rc.Key.Cipher, rc.AddrType,
-		sizeBucket(rc.UpLen), sizeBucket(rc.DownLen), sizeBucket(rc.Chunks[0]), rc.Coalesce, rc.EmptyChk, cutClass(rc.FirstCut), rc.Mode, rc.TgtFirst, rc.Raw) + fmt.Sprintf("|slow=%v|late-reader=%v", rc.SlowMs > 0, rc.SlowRead > 0)
+		sizeBucket(rc.UpLen), sizeBucket(rc.DownLen), sizeBucket(rc.Chunks[0]), rc.Coalesce, rc.EmptyChk, cutClass(rc.FirstCut), rc.Mode, rc.TgtFirst, rc.Raw) + fmt.Sprintf("|slow=%v|late-reader=%v|short-name=%d", rc.SlowMs > 0, rc.SlowRead > 0, len(rc.ShortName))
 }
 
 func cutClass(n int) string {
@@ -79,6 +80,12 @@ func genRelayCase(r *rand.Rand, batch int, keys []KeySpec, big bool) relayCase {
 	rc.AddrType = []int{1, 3, 4}[r.Intn(3)]
 	if rc.AddrType == 3 {
 		rc.DomainFam = pick(r, []string{"v4", "v6", "both"})
+		if r.Intn(4) == 0 {
+			select {
+			case rc.ShortName = <-shortNames:
+			default:
+			}
+		}
 	}
 	sz := func() int {
 		switch r.Intn(8) {
@@ -143,6 +150,19 @@ func genRelayCase(r *rand.Rand, batch int, keys []KeySpec, big bool) relayCase {
 	}
 	return rc
 }
+
+// shortNames is a pool of 1- and 2-character host names; a case borrows one for its lifetime
+// (the scripted DNS maps it to that case's target), so concurrent cases never share a name.
+var shortNames = func() chan string {
+	ch := make(chan string, 200)
+	for _, a := range "abcdefghij" {
+		ch <- string(a)
+		for _, b := range "xyz0" {
+			ch <- string(a) + string(b)
+		}
+	}
+	return ch
+}()
 
 // relayOutcome is everything observed at the boundary for one case.
 type relayOutcome struct {
@@ -220,6 +240,9 @@ func (e *relayEnv) caseAddr(rc relayCase) ([]byte, []net.IP) {
 		return sscodec.AddrIP(caseIP6(n), e.Hub.Port, false), []net.IP{caseIP6(n)}
 	}
 	name := fmt.Sprintf("c%x%s.lab", n, rc.DomainFam)
+	if rc.ShortName != "" {
+		name = rc.ShortName // 1-2 character host names: the shortest possible address headers
+	}
 	var ips []net.IP
 	switch rc.DomainFam {
 	case "v4":
@@ -342,6 +365,9 @@ func runRelayCase(e *relayEnv, r *rand.Rand, rc relayCase) *relayOutcome {
 	defer func() {
 		for _, ip := range ips {
 			e.Hub.Off(ip.String())
+		}
+		if rc.ShortName != "" {
+			shortNames <- rc.ShortName
 		}
 	}()
 
